@@ -376,3 +376,74 @@ CONTRACTS += [
                        'result["values"][1]["type"] == "time"')],
              note='hour 1..12 without am/pm (comment "ampm"): the value and the TIMEX of each reading agree'),
 ]
+
+# ---- Chinese date parser: table look-ups with the lunar aliases stored past the end of the table (C06); the value ranges are
+# those of ChineseDateTime.ParserConfigurationMonthOfYear (max 13) and ParserConfigurationDayOfMonth (max 32)
+ZDP = DT + 'chinese/date_parser.py::ChineseDateParser.'
+CONTRACTS += [
+    Contract('dp.chinese.get_month_of_year', ZDP + 'get_month_of_year', ['C06'],
+             params=dict(self=Rec(DT + 'chinese/date_parser.py::ChineseDateParser',
+                                  dict(config=Config(tables=dict(month_of_year=Map('str', 'int', 1, 13))))), source=Str()),
+             requires=['source in self.config.month_of_year'],
+             ensures=[('a-regular-month-is-itself-an-alias-wraps-into-1-to-12',
+                       'result == (self.config.month_of_year[source] if self.config.month_of_year[source] <= 12 '
+                       'else self.config.month_of_year[source] - 12) and 1 <= result and result <= 12')]),
+    Contract('dp.chinese.get_day_of_month', ZDP + 'get_day_of_month', ['C06'],
+             params=dict(self=Rec(DT + 'chinese/date_parser.py::ChineseDateParser',
+                                  dict(config=Config(tables=dict(day_of_month=Map('str', 'int', 1, 32))))), source=Str()),
+             requires=['source in self.config.day_of_month'],
+             ensures=[('a-regular-day-is-itself-an-alias-wraps-into-1-to-31',
+                       'result == (self.config.day_of_month[source] if self.config.day_of_month[source] <= 31 '
+                       'else self.config.day_of_month[source] - 31) and 1 <= result and result <= 31')]),
+]
+
+# ---- Chinese time ranges: the duration of "A到B" is end - begin (mod 24 h) (C10)
+_TR = lambda p: Rec(DT + 'chinese/base_date_time_extractor.py::TimeResult',
+                    dict(hour=Int(0, 23), minute=Int(-1, 59), second=Int(-1, 59), low_bound=Const(-1)))
+_SECS = lambda p: f'({p}.hour * 3600 + (0 if {p}.minute == -1 else {p}.minute) * 60 + (0 if {p}.second == -1 else {p}.second))'
+CONTRACTS += [
+    Contract('dp.chinese.build_span', DT + 'chinese/timeperiod_parser.py::ChineseTimePeriodParser.build_span', ['C10'],
+             params=dict(self=Rec(DT + 'chinese/timeperiod_parser.py::ChineseTimePeriodParser', {}), left=_TR('l'), right=_TR('r')),
+             ensures=[('the-span-denotes-end-minus-begin-within-a-day',
+                       f'result == pt_duration_str(({_SECS("right")} - {_SECS("left")}) % 86400)')],
+             note='hours 0..23, minutes and seconds 0..59 or absent (-1)'),
+]
+
+# ---- Chinese bare weekday (星期天, 周五 ...): same rule as the base parser; the values keep the time of day of the reference
+_ZW = 'self.config.day_of_week[weekday_str]'
+_ZISOW = f'({_ZW} if {_ZW} >= 1 else 7)'
+CONTRACTS += [
+    Contract('dp.chinese.implicit.bare_weekday', ZDP + 'parse_implicit_date', ['C09'],
+             params=dict(self=Rec(DT + 'chinese/date_parser.py::ChineseDateParser',
+                                  dict(config=DATE_CFG, special_date_regex=Const('special_date_regex'),
+                                       token_next_regex=Const('token_next_regex'), token_last_regex=Const('token_last_regex'))),
+                         source=Str(), reference=DateTime(1950, 2090), weekday_str=Str(10)),
+             regex_env={'special_date_regex': 'none', 'special_day_regex': 'none', 'this_regex': 'none', 'next_regex': 'none',
+                        'last_regex': 'none', 'week_day_regex': _WD_GROUP},
+             ensures=[('timex-leaves-the-week-open', f'result.success and result.timex == "XXXX-WXX-" + str({_ZISOW})'),
+                      ('future-is-the-earliest-such-weekday-on-or-after-the-reference-date',
+                       f'ordinal_of(result.future_value) == next_weekday_after(ordinal_of(reference) - 1, {_ZISOW})'),
+                      ('past-is-the-latest-such-weekday-strictly-before-the-reference-date',
+                       f'ordinal_of(result.past_value) == last_weekday_before(ordinal_of(reference), {_ZISOW})')],
+             note='table value 0 is Sunday (ISO 7); any reference date and time of day'),
+]
+
+# ---- Chinese holidays with a relative year (明年除夕): the value lies in the year the TIMEX names (C11)
+ZHP_CLS = DT + 'chinese/holiday_parser.py::ChineseHolidayParser'
+CONTRACTS += [
+    Contract(f'dp.chinese.holiday.relative_year.{fn}', ZHP_CLS + '._match2date', ['C11'],
+             params=dict(swift=Int(-3, 3), yearrel=Str(4), hol=Const(word),
+                         self=Rec(ZHP_CLS, {'config': Config(funcs=dict(sanitize_holiday_token=Returns(Const(word)),
+                                                                        get_swift_year=Returns(Expr('swift'))),
+                                                             values=dict(holiday_func_dictionary=Const({}))),
+                                            '__fixed_holiday_dictionary': Expr('{"%s": repo_const("%s", "%s")}' % (word, ZHP_CLS, fn))}),
+                         match=Match(groups=dict(holiday='hol', year='None', yearCJK='None', yearrel='yearrel')),
+                         reference=DateTime(1950, 2090)),
+             requires=['len(yearrel) >= 1'],
+             ensures=[('the-value-is-that-day-in-the-year-the-timex-names',
+                       'result.success and result.future_value == result.past_value and '
+                       f'result.timex == date_str(reference.year + swift, {mon}, {day}) and '
+                       f'ordinal_of(result.future_value) == ordinal(reference.year + swift, {mon}, {day})')],
+             note='holiday word %s with a relative year word whose swift is symbolic' % word)
+    for word, fn, mon, day in (('除夕', 'new_year_eve', 12, 31), ('元旦', 'new_year', 1, 1), ('圣诞节', 'christmas_day', 12, 25))
+]
